@@ -581,28 +581,69 @@ func runCases(casesPath string, n int, dirv string, workersv int) []*houtcome {
 		}(k, from, to)
 	}
 	wg.Wait()
-	// a deadline overrun, OOM or fatal error seen under 16-fold parallel load is confirmed by running the case alone
+	// a deadline overrun, OOM or fatal error seen under 16-fold parallel load is confirmed by running the case on its own
+	// (four at a time). A change that makes hundreds of cases hang would otherwise cost 40 s each: the first confirmations
+	// of a signature (class, entry point, source kind, record, field, kind) are run, the remaining cases of that signature
+	// are reported as "unconfirmed" (no verdict; counted in the evidence).
+	type job struct{ i int }
+	var jobs []job
+	seen := map[string]int{}
+	var cases []hcase
+	if cf, err := os.Open(casesPath); err == nil {
+		sc := bufio.NewScanner(cf)
+		sc.Buffer(make([]byte, 1<<20), 1<<28)
+		for sc.Scan() {
+			var c hcase
+			json.Unmarshal(sc.Bytes(), &c)
+			c.Data = nil
+			cases = append(cases, c)
+		}
+		cf.Close()
+	}
 	for i, oc := range outcomes {
 		if oc == nil || (oc.Class != "timeout" && oc.Class != "oom" && oc.Class != "fatal" && oc.Class != "killed") {
 			continue
 		}
-		of := fmt.Sprintf("%s/confirm.txt", *dir)
-		os.Remove(of)
-		cmd := exec.Command(self, "hostile-worker", "-cases", casesPath, "-from", fmt.Sprint(i), "-to", fmt.Sprint(i+1), "-out", of, "-deadline", "40s")
-		err := cmd.Run()
-		b, _ := os.ReadFile(of)
-		if err == nil {
-			for _, line := range strings.Split(string(b), "\n") {
-				if strings.HasPrefix(line, "DONE ") {
-					var o houtcome
-					if json.Unmarshal([]byte(line[5:]), &o) == nil {
-						outcomes[i] = &o
+		key := oc.Class
+		if i < len(cases) {
+			c := cases[i]
+			key = fmt.Sprintf("%s|%s|%v|%s|%s|%s", oc.Class, c.EP, c.Seek, c.Rec, c.Fld, c.Kind)
+		}
+		seen[key]++
+		if seen[key] > 4 && len(jobs) >= 64 {
+			outcomes[i] = &houtcome{I: i, Class: "unconfirmed", Where: oc.Class + " under load, not re-run: " + oc.Where}
+			continue
+		}
+		jobs = append(jobs, job{i})
+	}
+	sem := make(chan struct{}, 4)
+	for _, j := range jobs {
+		wg.Add(1)
+		sem <- struct{}{}
+		go func(i int) {
+			defer wg.Done()
+			defer func() { <-sem }()
+			of := fmt.Sprintf("%s/confirm-%d.txt", *dir, i)
+			os.Remove(of)
+			cmd := exec.Command(self, "hostile-worker", "-cases", casesPath, "-from", fmt.Sprint(i), "-to", fmt.Sprint(i+1), "-out", of, "-deadline", "40s")
+			err := cmd.Run()
+			b, _ := os.ReadFile(of)
+			if err == nil {
+				for _, line := range strings.Split(string(b), "\n") {
+					if strings.HasPrefix(line, "DONE ") {
+						var o houtcome
+						if json.Unmarshal([]byte(line[5:]), &o) == nil {
+							mu.Lock()
+							outcomes[i] = &o
+							mu.Unlock()
+						}
 					}
 				}
 			}
-		}
-		os.Remove(of)
+			os.Remove(of)
+		}(j.i)
 	}
+	wg.Wait()
 	return outcomes
 }
 
